@@ -170,6 +170,9 @@ def defect_positions():
         ("service getter reserved", "is reserved", setp(["services", "a", "getter"], "GetParam")),
         ("service getter must", 'prefix "Must"', setp(["services", "b", "getter"], "MustGo")),
         ("service getter suffix", 'suffix "InContext"', setp(["services", "c", "getter"], "GoInContext")),
+        ("service getter = embedded field", "is reserved", setp(["services", "v", "getter"], "Container")),
+        ("service getter duplicate", "is already used by", lambda cfg: (cfg["services"].setdefault("dup1", {"constructor": "fx.NewA"}).update({"getter": "SameGetter"}),
+                                                                       cfg["services"].setdefault("dup2", {"constructor": "fx.NewA"}).update({"getter": "SameGetter"}))),
         ("service type", "type: invalid", setp(["services", "a", "type"], "**T")),
         ("service value", "value: invalid", setp(["services", "v", "value"], "&&x")),
         ("service arg type", "arg 0: unsupported type", setp(["services", "b", "arguments"], [[1]])),
